@@ -156,7 +156,7 @@ func (vc *VC) assume(guard, fact Term) {
 func (vc *VC) oblige(kind, name string, pos token.Position, src string, guard, cond Term, props []string) {
 	if cond == "true" || guard == "false" {
 		// trivially discharged; still count explicit ones
-		if kind == "post" || strings.HasPrefix(kind, "loop") || kind == "pre" {
+		if kind == "post" || strings.HasPrefix(kind, "loop") || kind == "pre" || kind == "assert" || kind == "chaninv" || kind == "lockinv" || kind == "lemma" || kind == "typeinv" {
 			vc.obls = append(vc.obls, &Obl{Name: vc.uniq(name), Kind: kind, Func: vc.fn.String(), Pos: pos, Props: props, Goal: "false", CmdIdx: len(vc.cmds), Src: src})
 		}
 		return
